@@ -40,10 +40,11 @@ type Case struct {
 	Masks   [][]bool   `json:"masks"`
 	RType   string     `json:"rtype"`
 	NOrder  int        `json:"norder"`
-	Grid    bool       `json:"grid"` // place the vertices on a coarse grid (rings share latitudes / longitudes exactly)
-	Near    bool       `json:"near"` // two sibling rings get vertices a single 1e-7 degree step apart
-	Vers    [][]bool   `json:"vers"` // relation history: vers[v][i] = member way i is reversed at relation version v+1
-	Doc     *DocSpec   `json:"doc"`  // the relation is observed inside a document of several relations sharing ways
+	Grid    bool       `json:"grid"`  // place the vertices on a coarse grid (rings share latitudes / longitudes exactly)
+	Near    bool       `json:"near"`  // two sibling rings get vertices a single 1e-7 degree step apart
+	Place   string     `json:"place"` // "" | "grid" | "near" | "tiny" | "concave" (grid / near: also the two flags above)
+	Vers    [][]bool   `json:"vers"`  // relation history: vers[v][i] = member way i is reversed at relation version v+1
+	Doc     *DocSpec   `json:"doc"`   // the relation is observed inside a document of several relations sharing ways
 }
 
 // DocSpec: a document of 2-3 relations sharing ways; the case observes relation K (1-based) of Rels.
@@ -127,12 +128,18 @@ func place(c *Case, seed uint64, h uint64) *layout {
 		return float64(z>>11) / float64(uint64(1)<<53)
 	}
 	l := &layout{pt: map[int]orb.Point{}, sym: map[orb.Point]int{}, id: map[int]osm.NodeID{}}
-	if c.Grid {
+	switch {
+	case c.Grid || c.Place == "grid":
 		placeGrid(c, l, next)
 		return l
-	}
-	if c.Near {
+	case c.Near || c.Place == "near":
 		placeNear(c, l, next)
+		return l
+	case c.Place == "tiny":
+		placeTiny(c, l, next)
+		return l
+	case c.Place == "concave":
+		placeConcave(c, l, next)
 		return l
 	}
 	p := profiles[int(next()*float64(len(profiles)))%len(profiles)]
@@ -328,6 +335,270 @@ func placeGrid(c *Case, l *layout, next func() float64) {
 			l.sym[pt] = s
 			l.id[s] = osm.NodeID(3000 + int64(s))
 		}
+	}
+}
+
+// exact position of an integer point relative to a simple integer polygon: 1 inside, 0 on the boundary, -1 outside
+func insideInt(poly []ipt, p ipt) int {
+	in := false
+	for i := range poly {
+		a, b := poly[i], poly[(i+1)%len(poly)]
+		cr := (b.x-a.x)*(p.y-a.y) - (b.y-a.y)*(p.x-a.x)
+		if cr == 0 && minI(a.x, b.x) <= p.x && p.x <= maxI(a.x, b.x) && minI(a.y, b.y) <= p.y && p.y <= maxI(a.y, b.y) {
+			return 0
+		}
+		if (a.y > p.y) != (b.y > p.y) { // edge crosses the horizontal line through p: is the crossing east of p ?
+			if (cr > 0) == (b.y > a.y) {
+				in = !in
+			}
+		}
+	}
+	if in {
+		return 1
+	}
+	return -1
+}
+
+func minI(a, b int64) int64 {
+	if a < b {
+		return a
+	}
+	return b
+}
+
+func maxI(a, b int64) int64 {
+	if a > b {
+		return a
+	}
+	return b
+}
+
+func area2(poly []ipt) int64 {
+	var s int64
+	for i := range poly {
+		a, b := poly[i], poly[(i+1)%len(poly)]
+		s += a.x*b.y - b.x*a.y
+	}
+	return s
+}
+
+// ---- tiny layout ----
+// Rings without holes are lattice polygons 1..5 coordinate steps (1e-7 degree) across, at anchors far from lon = lat
+// = 0 in all four sign quadrants; an outer with holes is a lattice polygon just large enough to hold its tiny holes.
+var tinyTemplates = map[int][][]ipt{
+	3: {{{0, 0}, {2, 0}, {0, 1}}, {{0, 0}, {3, 1}, {1, 2}}, {{0, 0}, {1, 0}, {0, 1}}, {{0, 0}, {3, 0}, {1, 2}}},
+	4: {{{0, 0}, {2, 0}, {2, 1}, {0, 1}}, {{0, 0}, {1, 0}, {1, 1}, {0, 1}}, {{0, 0}, {2, 0}, {3, 2}, {1, 2}}, {{0, 0}, {3, 0}, {2, 2}, {1, 2}}},
+	5: {{{0, 0}, {2, 0}, {3, 1}, {2, 2}, {0, 2}}, {{0, 0}, {1, 0}, {2, 1}, {1, 2}, {0, 1}}},
+}
+var tinyAnchors = [][2]int64{{1001234567, 407654321}, {1512093000, -338688000}, {-1224194000, 377749000},
+	{-583816000, -346037000}, {1399999990, 357000011}, {-700000003, -199999998}}
+
+func placeTiny(c *Case, l *layout, next func() float64) {
+	a := tinyAnchors[int(next()*float64(len(tinyAnchors)))%len(tinyAnchors)]
+	a[0] += int64(next()*8192) - 4096
+	a[1] += int64(next()*8192) - 4096
+	tmpl := func(n int, maxScale int64) []ipt {
+		ts := tinyTemplates[n]
+		if ts == nil {
+			vio.Must(fmt.Errorf("ring with %d vertices", n), "tiny layout")
+		}
+		t := ts[int(next()*float64(len(ts)))%len(ts)]
+		var ext int64
+		for _, q := range t {
+			ext = maxI(ext, maxI(q.x, q.y))
+		}
+		sc := 1 + int64(next()*float64(maxScale/ext))%maxI(maxScale/ext, 1)
+		rot := int(next()*float64(n)) % n
+		out := make([]ipt, n)
+		for i := range t {
+			q := t[(i+rot)%n]
+			out[i] = ipt{q.x * sc, q.y * sc}
+		}
+		return out
+	}
+	put := func(r int, ring []ipt, ox, oy int64) {
+		if area2(ring) <= 0 {
+			vio.Must(fmt.Errorf("ring %d not counter-clockwise", r), "tiny layout")
+		}
+		for i, q := range ring {
+			pt := orb.Point{float64(a[0]+ox+q.x) / 1e7, float64(a[1]+oy+q.y) / 1e7}
+			s := r*100 + i + 1
+			if _, dup := l.sym[pt]; dup {
+				vio.Must(fmt.Errorf("two symbols on one coordinate"), "tiny layout")
+			}
+			l.pt[s], l.sym[pt], l.id[s] = pt, s, osm.NodeID(9000+int64(s))
+		}
+	}
+	k := int64(0)
+	for X := 1; X <= len(c.G); X++ {
+		if c.G[X-1].Parent != 0 {
+			continue
+		}
+		var hs []int
+		for r := 1; r <= len(c.G); r++ {
+			if c.G[r-1].Parent == X {
+				hs = append(hs, r)
+			}
+		}
+		ox := 60 * k
+		k++
+		if len(hs) == 0 {
+			put(X, tmpl(c.G[X-1].N, 5), ox, 0)
+			continue
+		}
+		// outer: a template blown up; holes: tiny templates at lattice offsets found by exact search
+		outer := tmpl(c.G[X-1].N, 2)
+		var ext int64
+		for _, q := range outer {
+			ext = maxI(ext, maxI(q.x, q.y))
+		}
+		f := 24 / ext
+		for i := range outer {
+			outer[i] = ipt{outer[i].x * f, outer[i].y * f}
+		}
+		put(X, outer, ox, 0)
+		var placed [][]ipt
+		for _, h := range hs {
+			hole := tmpl(c.G[h-1].N, 3)
+			found := false
+			start := int64(next() * 24)
+		search:
+			for d := int64(0); d < 24*24; d++ {
+				px, py := (start+d)%24, ((start+d)/24)%24
+				cand := make([]ipt, len(hole))
+				for i, q := range hole {
+					cand[i] = ipt{px + q.x, py + q.y}
+					if insideInt(outer, cand[i]) != 1 {
+						continue search
+					}
+				}
+				for _, other := range placed { // keep the holes apart: bounding boxes at least one step apart
+					var ax0, ay0, ax1, ay1, bx0, by0, bx1, by1 int64 = 1 << 40, 1 << 40, -1 << 40, -1 << 40, 1 << 40, 1 << 40, -1 << 40, -1 << 40
+					for _, q := range cand {
+						ax0, ay0, ax1, ay1 = minI(ax0, q.x), minI(ay0, q.y), maxI(ax1, q.x), maxI(ay1, q.y)
+					}
+					for _, q := range other {
+						bx0, by0, bx1, by1 = minI(bx0, q.x), minI(by0, q.y), maxI(bx1, q.x), maxI(by1, q.y)
+					}
+					if !(ax1+1 < bx0 || bx1+1 < ax0 || ay1+1 < by0 || by1+1 < ay0) {
+						continue search
+					}
+				}
+				placed = append(placed, cand)
+				put(h, cand, ox, 0)
+				found = true
+				break
+			}
+			if !found {
+				vio.Must(fmt.Errorf("no room for hole %d", h), "tiny layout")
+			}
+		}
+	}
+}
+
+// ---- concave layout ----
+// Outers with a hole are chevrons: feet L, R, apex T (or a flat top T1 T2) and a reflex vertex N that makes a deep notch
+// between the feet. Their hole is a thinner chevron inside the arms; the middle of its bounding box lies in the notch,
+// i.e. outside the hole and outside the hole's own outer. The first outer without holes sits in the notch of the first
+// chevron, around that middle point; further ones lie apart. Unit 1e-5 degree; every containment fact is verified exactly.
+func placeConcave(c *Case, l *layout, next func() float64) {
+	p := profiles[int(next()*float64(len(profiles)))%len(profiles)]
+	const unit = 1e-5
+	chevOuter := map[int][]ipt{4: {{0, 0}, {100, 200}, {200, 0}, {100, 300}}, 5: {{0, 0}, {100, 200}, {200, 0}, {110, 300}, {90, 300}}}
+	chevHole := map[int][]ipt{4: {{25, 60}, {100, 240}, {175, 60}, {100, 285}}, 5: {{25, 60}, {100, 240}, {175, 60}, {104, 285}, {96, 285}}}
+	notch := map[int][]ipt{3: {{92, 150}, {108, 150}, {100, 180}}, 4: {{92, 150}, {108, 150}, {106, 178}, {94, 178}},
+		5: {{92, 150}, {108, 150}, {108, 170}, {100, 180}, {92, 170}}}
+	rotd := func(t []ipt, ox int64) []ipt {
+		if t == nil {
+			vio.Must(fmt.Errorf("no concave template"), "concave layout")
+		}
+		n := len(t)
+		rot := int(next()*float64(n)) % n
+		out := make([]ipt, n)
+		for i := range t {
+			out[i] = ipt{t[(i+rot)%n].x + ox, t[(i+rot)%n].y}
+		}
+		return out
+	}
+	put := func(r int, ring []ipt) {
+		if area2(ring) <= 0 {
+			vio.Must(fmt.Errorf("ring %d not counter-clockwise", r), "concave layout")
+		}
+		for i, q := range ring {
+			pt := orb.Point{p.lon0 + float64(q.x)*unit, p.lat0 + float64(q.y)*unit}
+			if pt[0] == 0 && pt[1] == 0 {
+				pt[0] = 1e-9
+			}
+			s := r*100 + i + 1
+			if _, dup := l.sym[pt]; dup {
+				vio.Must(fmt.Errorf("two symbols on one coordinate"), "concave layout")
+			}
+			l.pt[s], l.sym[pt], l.id[s] = pt, s, osm.NodeID(p.idBase+20000+int64(s))
+		}
+	}
+	var first []ipt // the first chevron outer
+	var firstHole []ipt
+	k := int64(0)
+	var plain []int
+	for X := 1; X <= len(c.G); X++ {
+		if c.G[X-1].Parent != 0 {
+			continue
+		}
+		h := 0
+		for r := 1; r <= len(c.G); r++ {
+			if c.G[r-1].Parent == X {
+				if h != 0 {
+					vio.Must(fmt.Errorf("two holes in outer %d", X), "concave layout")
+				}
+				h = r
+			}
+		}
+		if h == 0 {
+			plain = append(plain, X)
+			continue
+		}
+		outer := rotd(chevOuter[c.G[X-1].N], 300*k)
+		hole := rotd(chevHole[c.G[h-1].N], 300*k)
+		k++
+		for _, q := range hole {
+			if insideInt(outer, q) != 1 {
+				vio.Must(fmt.Errorf("hole %d not strictly inside outer %d", h, X), "concave layout")
+			}
+		}
+		if first == nil {
+			first, firstHole = outer, hole
+		}
+		put(X, outer)
+		put(h, hole)
+	}
+	if first == nil {
+		vio.Must(fmt.Errorf("no outer with a hole"), "concave layout")
+	}
+	for j, X := range plain {
+		var ring []ipt
+		if j == 0 {
+			ring = rotd(notch[c.G[X-1].N], 0)
+			for _, q := range ring { // in the notch: outside the chevron; and it covers the middle of the hole's box
+				if insideInt(first, q) != -1 {
+					vio.Must(fmt.Errorf("outer %d touches the chevron", X), "concave layout")
+				}
+			}
+			var x0, y0, x1, y1 int64 = 1 << 40, 1 << 40, -1 << 40, -1 << 40
+			for _, q := range firstHole {
+				x0, y0, x1, y1 = minI(x0, q.x), minI(y0, q.y), maxI(x1, q.x), maxI(y1, q.y)
+			}
+			mid2 := ipt{x0 + x1, y0 + y1} // twice the middle, to stay in integers
+			dbl := make([]ipt, len(ring))
+			for i, q := range ring {
+				dbl[i] = ipt{2 * q.x, 2 * q.y}
+			}
+			if insideInt(dbl, mid2) != 1 {
+				vio.Must(fmt.Errorf("outer %d does not cover the middle of the hole's box", X), "concave layout")
+			}
+		} else {
+			ring = rotd(notch[c.G[X-1].N], 300*(k+int64(j)))
+		}
+		put(X, ring)
 	}
 }
 
